@@ -265,6 +265,7 @@ class SObj:
         self.owner = owner
         self.name = name or f"{cls.split('.')[-1]}#{self.id}"
         self.writes = []  # (field) write log for frame obligations
+        self.handbuilt = True  # built by a contract (not by running the real constructor): its field set is a model
 
     def __repr__(self):
         return f"<SObj {self.name}>"
